@@ -112,3 +112,42 @@ func StripKeyNULL(der []byte) ([]byte, bool) {
 	out := wrap(0x30, append(append(wrap(0x30, newTBS), top[1].full...), top[2].full...))
 	return out, true
 }
+
+// AddUniqueIDs rewrites a certificate so that its body carries issuerUniqueID ([1] IMPLICIT BIT STRING) and / or
+// subjectUniqueID ([2]) in front of the extensions - legal in version 2 and 3 certificates, never emitted by
+// crypto/x509 - fixing the enclosing lengths. The signature is left as it is (it no longer covers the body:
+// parsers do not look at it). nil = leave that identifier out. ok=false if not applicable.
+func AddUniqueIDs(der []byte, issuerID, subjectID []byte) ([]byte, bool) {
+	cert, rest, ok := readTLV(der)
+	if !ok || len(rest) != 0 || cert.tag != 0x30 {
+		return nil, false
+	}
+	top := children(cert.content)
+	if len(top) != 3 {
+		return nil, false
+	}
+	tbs := children(top[0].content)
+	if len(tbs) < 7 || tbs[0].tag != 0xa0 { // version 1 certificates have no unique identifiers
+		return nil, false
+	}
+	var ids []byte
+	if issuerID != nil {
+		ids = append(ids, wrap(0x81, append([]byte{0}, issuerID...))...)
+	}
+	if subjectID != nil {
+		ids = append(ids, wrap(0x82, append([]byte{0}, subjectID...))...)
+	}
+	var newTBS []byte
+	done := false
+	for _, c := range tbs {
+		if c.tag == 0xa3 && !done {
+			newTBS = append(newTBS, ids...)
+			done = true
+		}
+		newTBS = append(newTBS, c.full...)
+	}
+	if !done {
+		newTBS = append(newTBS, ids...)
+	}
+	return wrap(0x30, append(append(wrap(0x30, newTBS), top[1].full...), top[2].full...)), true
+}
